@@ -26,7 +26,9 @@ LEVEL_TEXT = ("Lean 4 theorems over a model of key regeneration: clone_values (f
               "bind_values / bind_waits (chunks.bind(node, blocker) computes node's value once the blocker has one, lists the blocker "
               "as a dependency and cannot be evaluated before it), checkpoint_reaches_all (every input key feeds through the "
               "split_every aggregation tree into the final node, for every split_every and fuel) and checkpoint_none. PARTIAL: the "
-              "glue (layer selection in _bind_one, Blockwise.clone index bookkeeping, HighLevelGraph dependencies, rebuild/rename) is "
+              "leaf decision of Blockwise.clone is modelled (blockwiseLeaf, blockwiseLeaf_of_all_omitted: a regenerated layer whose "
+              "inputs -- array names or TaskRefs to Delayed/Item/scalar collections -- are all omitted is a leaf and gets bound) and "
+              "diffed; the remaining glue (layer selection in _bind_one, Blockwise index rewriting, HighLevelGraph dependencies, rebuild/rename) is "
               "validated through values, key sets and execution logs, not proved; happens-before on real schedulers relies on C02. "
               "Known findings: assume_layers=False with omit, and a child listed in omit, give uncomputable results; Layer.clone renames "
               "key-like dict values that the evaluation treats as literals.")
@@ -186,11 +188,57 @@ def _mk_collection(spec):
             elif op == "filter":
                 b = b.filter(_even)
         return b
+    if kind == "mapblocks":
+        return _mk_mapblocks(spec)[0]
     from dask import delayed
     vals = [delayed(FUNCS[i % 6])(i) for i in range(spec["n"])]
     while len(vals) > 1:
         vals = [delayed(FUNCS[(len(vals) + j) % 6])(*vals[j:j + spec["fan"]]) for j in range(0, len(vals), spec["fan"])]
     return vals[0]
+
+
+def _addx(blk, extra):
+    return blk + extra
+
+
+def _mk_extra(kind):
+    """a non-array (or 0-d array) collection handed to a blockwise layer as an argument"""
+    import numpy as np
+    if kind == "delayed":
+        from dask import delayed
+        return delayed(abs)(-2)
+    if kind == "item":
+        import dask.bag as db
+        return db.from_sequence([1, 2, 3], npartitions=2).sum()
+    if kind == "count":
+        import dask.bag as db
+        return db.from_sequence([1, 2, 3, 4], npartitions=3).count()
+    if kind == "0d":
+        import dask.array as da
+        return da.from_array(np.arange(3), chunks=2).sum()
+    import dask.array as da      # "array": an ordinary array argument of matching length is built by the caller
+    return None
+
+
+def _mk_mapblocks(spec):
+    """a Blockwise layer whose inputs are an array `x` and a second collection `extra` (Delayed, bag Item, 0-d array,
+    or another array), built through map_blocks / blockwise / elemwise.  Returns (y, [x, extra])."""
+    import dask.array as da
+    x = _mk_collection(spec["base"])
+    if x.ndim != 1:
+        x = x.ravel()
+    extra = _mk_extra(spec["extra"])
+    if extra is None:
+        extra = x * 2
+    via = spec["via"]
+    if spec["extra"] == "array" or (via == "elemwise" and spec["extra"] == "0d"):
+        y = x + extra if via == "elemwise" else da.map_blocks(_addx, x, extra, dtype=x.dtype) if via == "map_blocks" \
+            else da.blockwise(_addx, "i", x, "i", extra, "i" if spec["extra"] == "array" else "", dtype=x.dtype)
+    elif via == "blockwise" or via == "elemwise":
+        y = da.blockwise(_addx, "i", x, "i", extra, "" if spec["extra"] == "0d" else None, dtype=x.dtype)
+    else:
+        y = x.map_blocks(_addx, extra, dtype=x.dtype)
+    return y, [x, extra]
 
 
 def _inc(v):
@@ -212,12 +260,17 @@ def _value(c, **kw):
         return repr(v)
 
 
-def _mk_omit(inp):
+def _mk_omit(inp, ins=None):
     """omit = 'prefix': the child's own first stage (a strict prefix sharing layers with the child);
     'self': the child itself (degenerate: everything is omitted); None"""
     how = inp.get("omit")
     ch = inp["child"]
-    if not how or ch["kind"] == "delayed":
+    if ch["kind"] == "mapblocks":
+        if not isinstance(how, list) or not how:
+            return None, None
+        # the very objects the child was built from (a Delayed has a fresh random key every time it is created)
+        return [ins[i] for i in how], "inputs"
+    if not how or isinstance(how, list) or ch["kind"] == "delayed":
         return None, None
     if how == "self":
         return _mk_collection(ch), "self"
@@ -242,7 +295,7 @@ def _guard(ctx, op, inp, how, fn):
         sig = None
         if how == "self":
             sig = SIG_SELF.format(op=op)
-        elif how == "prefix" and not inp.get("assume_layers", True):
+        elif how in ("prefix", "inputs") and not inp.get("assume_layers", True):
             sig = SIG_AL.format(op=op)
         ctx.fail(f"{op} result cannot be computed: {type(e).__name__}: {str(e)[:120]}", sig=sig)
         return False, None
@@ -263,14 +316,18 @@ def _task_okeys(c):
 def case_api(ctx, inp):
     import dask
     from dask.graph_manipulation import bind, checkpoint, clone, wait_on
-    child = _mk_collection(inp["child"])
+    ins = None
+    if inp["child"]["kind"] == "mapblocks":
+        child, ins = _mk_mapblocks(inp["child"])
+    else:
+        child = _mk_collection(inp["child"])
     want = _value(child)
     op = inp["op"]
     seed = inp.get("seed")
     al = inp.get("assume_layers", True)
     sched = inp.get("scheduler", "sync")
     if op == "clone":
-        omit, how = _mk_omit(inp)
+        omit, how = _mk_omit(inp, ins)
         c = clone(child, omit=omit, seed=seed, assume_layers=al)
         ok, got = _guard(ctx, "clone", inp, how, lambda: _value(c))
         if not ok:
@@ -281,11 +338,15 @@ def case_api(ctx, inp):
         if shared and how != "self":
             ctx.fail("clone shares output keys with the original", observed=sorted(map(repr, shared)))
         gk_c, gk_o = set(c.__dask_graph__()), set(child.__dask_graph__())
-        allowed = set(omit.__dask_graph__()) if omit is not None else set()
+        allowed = set()
+        for o in (omit if isinstance(omit, list) else [omit] if omit is not None else []):
+            allowed |= set(o.__dask_graph__())
         if (gk_c & gk_o) - allowed:
             ctx.fail("clone shares graph keys with the original outside omit", observed=sorted(map(repr, (gk_c & gk_o) - allowed))[:5])
         if omit is not None:
             ctx.branch("clone-omit-" + how)
+        if inp["child"]["kind"] == "mapblocks":
+            ctx.branch("clone-mapblocks-" + inp["child"]["extra"])
         if seed is not None:
             c2 = clone(child, omit=omit, seed=seed, assume_layers=al)
             if set(c2.__dask_graph__()) != gk_c:
@@ -326,7 +387,7 @@ def case_api(ctx, inp):
         ctx.branch("wait_on-" + inp["child"]["kind"])
         return
     # bind
-    omit, how = _mk_omit(inp)
+    omit, how = _mk_omit(inp, ins)
     b = bind(child, parent, omit=omit, seed=seed, assume_layers=al, split_every=inp.get("split_every"))
 
     def run():
@@ -340,14 +401,19 @@ def case_api(ctx, inp):
         ctx.fail("bind changes the computed value", observed=got, expected=want)
     if _okeys(b) & _okeys(child) and how != "self":
         ctx.fail("bind shares output keys with the original", observed=sorted(map(repr, _okeys(b) & _okeys(child)))[:5])
+    missing_parents = [k for k in _okeys(parent) if k not in b.__dask_graph__()]
+    if missing_parents:
+        ctx.fail("bind: the parents' keys are not in the graph of the bound collection (nothing makes the child wait)",
+                 observed=[repr(k) for k in missing_parents][:3])
+        return
     pend = [log.pos("end", k) for k in pkeys]
     if None in pend:
         ctx.fail("bind: a parent chunk was never computed", observed=[repr(k) for k in pkeys if log.pos("end", k) is None][:3])
         return
     last_parent = max(pend) if pend else -1
     orig = set(child.__dask_graph__()) | set(parent.__dask_graph__())
-    if omit is not None:
-        orig |= set(omit.__dask_graph__())
+    for o in (omit if isinstance(omit, list) else [omit] if omit is not None else []):
+        orig |= set(o.__dask_graph__())
     regenerated = [k for k in b.__dask_graph__() if k not in orig and not str(k if not isinstance(k, tuple) else k[0]).startswith("checkpoint")]
     for k in regenerated:
         s = log.pos("start", k)
@@ -355,9 +421,13 @@ def case_api(ctx, inp):
             ctx.fail("bind: a regenerated task of the child started before all parents were computed",
                      observed=[repr(k), s, last_parent])
             break
+    if not regenerated:
+        ctx.fail("bind: nothing was regenerated")
     ctx.branch("bind-" + inp["child"]["kind"])
     if omit is not None:
         ctx.branch("bind-omit-" + how)
+    if inp["child"]["kind"] == "mapblocks":
+        ctx.branch("bind-mapblocks-%s-omit%s" % (inp["child"]["extra"], "".join(map(str, inp.get("omit") or []))))
 
 
 def case_checkpoint_tree(ctx, inp):
@@ -410,7 +480,58 @@ def case_checkpoint_tree(ctx, inp):
             break
 
 
-CASES = {"layer": case_layer, "api": case_api, "checkpoint_tree": case_checkpoint_tree}
+def case_bw_layer(ctx, inp):
+    """`Blockwise.clone(keys, seed, bind_to)` on the top layer of a map_blocks/blockwise collection: the `bound` flag
+    (= is_leaf) against the model's `blockwiseLeaf`, for the clone-key set `bind` computes from an omit subset"""
+    from dask._task_spec import TaskRef
+    from dask.base import get_name_from_key
+    from dask.blockwise import Blockwise
+    from dask.core import ishashable
+    y, ins = _mk_mapblocks(inp["child"])
+    hlg = y.__dask_graph__()
+    layer = hlg.layers[y.name]
+    if not isinstance(layer, Blockwise):
+        ctx.note("top-layer-not-blockwise")
+        return
+    omit = [ins[i] for i in inp["omit"]]
+    keys = set(hlg.get_all_external_keys())
+    for o in omit:
+        for ln in o.__dask_layers__():
+            if ln in hlg.layers:
+                keys -= hlg.layers[ln].get_output_keys()
+    new, bound = layer.clone(keys=keys, seed=inp["seed"], bind_to="blocker-key")
+    names = sorted({get_name_from_key(k) for k in keys}, key=repr)
+    idx = []
+    for k, _ in layer.indices:
+        if isinstance(k, TaskRef):
+            idx.append([Sym("ref"), to_sexp(k.key)])
+        elif ishashable(k) and isinstance(k, (str, tuple, int)) and not isinstance(k, bool):
+            try:
+                idx.append([Sym("name"), to_sexp(k)])
+            except TypeError:
+                idx.append([Sym("other")])
+        else:
+            idx.append([Sym("other")])
+    m = ctx.lean(Sym("bw_leaf"), [to_sexp(n) for n in names], idx, [to_sexp(k) for k in layer.numblocks])
+    ctx.eq("Blockwise.clone: bound (= is_leaf)", m, bool(bound))
+    has_blocker = any(isinstance(k, TaskRef) and k.key == "blocker-key" for k, _ in new.indices)
+    if has_blocker != bool(bound):
+        ctx.fail("Blockwise.clone: `bound` flag and the injected blocker argument disagree", observed=[bound, has_blocker])
+    # the statement behind it: a regenerated layer none of whose inputs is regenerated must be bound
+    # (inputs are read off the HighLevelGraph's dependency map, not off the layer's own indices; a bag Item enters
+    # through an extra `finalize` layer that is not part of the omitted collection and is therefore regenerated)
+    omit_layers = {ln for o in omit for ln in o.__dask_layers__()}
+    regenerated_inputs = set(hlg.dependencies[y.name]) - omit_layers
+    if not regenerated_inputs and not bound:
+        ctx.fail("Blockwise.clone: a regenerated layer all of whose inputs are omitted was not bound to the blocker",
+                 observed=[repr(k) for k, _ in layer.indices])
+    if regenerated_inputs and bound:
+        ctx.fail("Blockwise.clone: a layer with a regenerated input was bound as if it were a leaf",
+                 observed=sorted(map(repr, regenerated_inputs)))
+    ctx.branch("bw-%s-omit%s-%s" % (inp["child"]["extra"], "".join(map(str, inp["omit"])), "bound" if bound else "inner"))
+
+
+CASES = {"layer": case_layer, "api": case_api, "checkpoint_tree": case_checkpoint_tree, "bw_layer": case_bw_layer}
 
 
 def _gen_coll(rng, kind=None):
@@ -431,12 +552,12 @@ def generate(ctx):
     yield "layer", {"graph": [["a", {"t": [{"fn": 0}, 1]}], ["b", {"t": [{"fn": 1}, "a"]}]], "sel": [], "seed": 3, "bind": None}
     yield "layer", {"graph": [["a", {"t": [{"fn": 0}, 1]}], ["b", {"t": [{"fn": 1}, "a"]}]], "sel": [], "seed": 3, "bind": "blk"}
     yield "api", {"op": "clone", "child": {"kind": "delayed", "n": 3, "fan": 2, "ops": []}, "seed": 3}
-    for _ in range(ctx.n(400)):
+    for _ in range(ctx.n(300)):
         n = rng.randint(1, 6)
         g = gen_legacy_graph(rng, n, rng.choice([(), ("dictref",)]), depth=2)
         yield "layer", {"graph": g, "sel": [rng.randrange(n) for _ in range(rng.choice([0, 0, 1, 2, 3]))],
                         "seed": rng.choice([0, 1, "s", 17]), "bind": rng.choice([None, None, "blocker-1"])}
-    for _ in range(ctx.n(110)):
+    for _ in range(ctx.n(90)):
         op = rng.choice(["clone", "clone", "bind", "bind", "wait_on", "checkpoint"])
         inp = {"op": op, "child": _gen_coll(rng), "seed": rng.choice([None, 0, 5]), "assume_layers": rng.random() < 0.7,
                "omit": rng.choice([None, None, None, "prefix", "prefix", "self"]), "scheduler": rng.choice(["sync", "sync", "threads"]),
@@ -444,5 +565,22 @@ def generate(ctx):
         if op != "clone":
             inp["parent"] = _gen_coll(rng)
         yield "api", inp
+    # Blockwise layers with non-array collection arguments x every omit subset of the layer's inputs
+    extras = ["delayed", "item", "count", "0d", "array"]
+    vias = ["map_blocks", "blockwise", "elemwise"]
+    combos = [(e, v, om) for e in extras for v in vias for om in ([], [0], [1], [0, 1])]
+    rng.shuffle(combos)
+    for (e, v, om) in combos:
+        base = {"kind": "array", "shape": [rng.randint(2, 6)], "chunks": [rng.randint(1, 3)], "ops": [rng.choice(["add", "mul"])]}
+        ch = {"kind": "mapblocks", "base": base, "extra": e, "via": v, "ops": []}
+        yield "bw_layer", {"child": ch, "omit": om, "seed": rng.choice([0, 3])}
+    api_combos = [c for c in combos if c[2] == [0, 1]] + [c for c in combos if c[2] != [0, 1]][:ctx.n(24, 45)]
+    for (e, v, om) in api_combos:
+        base = {"kind": "array", "shape": [rng.randint(2, 6)], "chunks": [rng.randint(1, 3)], "ops": [rng.choice(["add", "mul"])]}
+        ch = {"kind": "mapblocks", "base": base, "extra": e, "via": v, "ops": []}
+        for op in ("bind", "clone") if rng.random() < 0.4 else ("bind",):
+            yield "api", {"op": op, "child": ch, "parent": _gen_coll(rng, rng.choice(["array", "bag", "delayed"])),
+                          "seed": rng.choice([None, 0, 5]), "assume_layers": True, "omit": om,
+                          "scheduler": rng.choice(["sync", "threads"]), "split_every": rng.choice([None, 2])}
     for _ in range(ctx.n(60)):
         yield "checkpoint_tree", {"n": rng.randint(1, 40), "np": rng.randint(1, 25), "split_every": rng.choice([None, False, 2, 3, 4, 8])}
